@@ -192,7 +192,10 @@ func StdIntrinsics() map[string]Intrinsic {
 		if !ok {
 			return e.uninterp("crc32", 32, e.sliceTerms(args[0].(*SliceV)))
 		}
-		return sym.BV(uint64(crc32.ChecksumIEEE(b)), 32)
+		// remember the concrete application so that a later symbolic one with equal bytes agrees
+		r := sym.BV(uint64(crc32.ChecksumIEEE(b)), 32)
+		e.noteUF("crc32", e.sliceTerms(args[0].(*SliceV)), r)
+		return r
 	}
 	m["hash/adler32.Checksum"] = func(e *Exec, fr *frame, args []Value, site ssa.Instruction) Value {
 		b, ok := e.concreteBytes(args[0])
@@ -346,6 +349,13 @@ func (e *Exec) uninterp(name string, w int, args []*sym.Term) *sym.Term {
 	}
 	e.ufApps[name] = append(e.ufApps[name], ufApp{args, v})
 	return v
+}
+
+func (e *Exec) noteUF(name string, args []*sym.Term, res *sym.Term) {
+	if e.ufApps == nil {
+		e.ufApps = map[string][]ufApp{}
+	}
+	e.ufApps[name] = append(e.ufApps[name], ufApp{args, res})
 }
 
 type ufApp struct {
